@@ -1,4 +1,5 @@
 import QR.Proofs.Penalty
+import QR.Proofs.SourceTie
 /-
 C08 - the penalty score the library uses to rank masks equals the ISO 18004 definition, for EVERY square matrix
 (any side n ≥ 1, not only QR sizes).  Model.lostPoint mirrors util.lost_point with its histogram, `next(iter)` skipping
@@ -33,5 +34,17 @@ theorem C08_rule4 (M : BMat) (n : Nat) (hn : 0 < n) (hlen : M.length = n) (hrow 
 example : let M : BMat := [[true,true,true,true,true,true],[true,true,false,false,false,false],[false,true,false,true,false,true],
                            [true,false,true,false,true,false],[false,false,false,false,false,true],[true,false,true,true,false,true]]
     M.length = 6 ∧ (∀ row ∈ M, row.length = 6) ∧ 0 < Spec.penalty M := by decide
+
+/-! ### tie to the source: the model's expressions are the ones translated from the current Python AST (T2) -/
+
+/-- the window test, skip test and weights of the scanners as they stand in the source (rows AND columns) -/
+theorem C08_source_rules :
+    (∀ a0 a1 a2 a3 a4 a5 a6 a7 a8 a9 a10 : Bool,
+      Gen.Code.l3_row_cond a0 a1 a2 a3 a4 a5 a6 a7 a8 a9 a10 = cond3 a0 a1 a2 a3 a4 a5 a6 a7 a8 a9 a10 ∧
+      Gen.Code.l3_col_cond a0 a1 a2 a3 a4 a5 a6 a7 a8 a9 a10 = cond3 a0 a1 a2 a3 a4 a5 a6 a7 a8 a9 a10 ∧
+      Gen.Code.l3_row_skip a0 a1 a2 a3 a4 a5 a6 a7 a8 a9 a10 = a10 ∧ Gen.Code.l3_col_skip a0 a1 a2 a3 a4 a5 a6 a7 a8 a9 a10 = a10) ∧
+    Gen.Code.l3_row_weight = 40 ∧ Gen.Code.l3_col_weight = 40 ∧ Gen.Code.l2_weight = 3 ∧ Gen.Code.l1_threshold = 5 ∧
+    (∀ cnt len, Gen.Code.l1_term cnt len = cnt * (len - 2)) ∧ (∀ n, Gen.Code.l1_range n = (5, n + 1)) :=
+  ⟨QR.SourceTie.rule3_eq, QR.SourceTie.rule_weights⟩
 
 end QR.Props
